@@ -162,7 +162,8 @@ impl<'a> SessionData<'a> {
                         let reason = if duplicate || !self.pending_server_packet_ids.is_full() {
                             ReasonCode::Success
                         } else {
-                            ReasonCode::ReceiveMaxExceeded
+                            // (0x93 is a DISCONNECT reason code; a PUBREC may not carry it)
+                            ReasonCode::QuotaExceeded
                         };
                         trace!(
                             "Queueing PUBREC for inbound QoS2 PUBLISH packet_id={=u16} duplicate={=bool} {}",
